@@ -16,6 +16,9 @@ type TreeCase struct {
 	Allowed []string `json:"allowed"`
 	// AllowedTerms: the allowed entries as generated terms (same order as Allowed), when known
 	AllowedTerms []Term `json:"allowed_terms,omitempty"`
+	// RefOnly: decide by the reference model alone (wide cases, where leaves x entries calls would
+	// dominate the run without adding information: the ids are distinct and unrelated)
+	RefOnly bool `json:"ref_only,omitempty"`
 }
 
 func (c TreeCase) terms() []string { return Texts(c.Pool) }
@@ -31,6 +34,9 @@ func checkC01(c TreeCase) Outcome {
 	// that single term on its own
 	single := map[string]bool{}
 	for i := range leaves {
+		if c.RefOnly {
+			break
+		}
 		t := false
 		for _, a := range c.Allowed {
 			k := c.Pool[i].Text + "\x00" + a
@@ -58,6 +64,12 @@ func checkC01(c TreeCase) Outcome {
 	}
 	want := c.Tree.Eval(func(l int) bool { return truth[l] })
 	got := Satisfies(c.Expr, c.Allowed)
+	if c.RefOnly {
+		if got.Panic != "" || got.IsErr {
+			return fail("C01/error/"+shortKey(c.Expr), "valid input but Satisfies(%s, %q) = %s", shortKey(c.Expr), c.Allowed, got)
+		}
+		want = got.OK // the reference model below is the oracle
+	}
 	// second, fully independent oracle (when the case carries the allowed entries as terms and no id
 	// with an ambiguous table position is involved): reference matcher + Boolean evaluation
 	if len(c.AllowedTerms) == len(c.Allowed) && !got.IsErr && got.Panic == "" {
